@@ -3437,6 +3437,15 @@ class BSP:
                 spr_scale = 1.0
                 shape_ang = 0
                 shape_size = 1
+            elif isinstance(prop, DetailPropShape):  # Subclass of Sprite, so must be checked first.
+                mdl_ind = add_sprite(
+                    prop.dims_upper_left + prop.dims_lower_right +
+                    prop.texcoord_upper_left + prop.texcoord_lower_right
+                )
+                detail_type = 3 if prop.is_cross else 2
+                spr_scale = prop.sprite_scale
+                shape_ang = prop.shape_angle
+                shape_size = prop.shape_size
             elif isinstance(prop, DetailPropSprite):
                 mdl_ind = add_sprite(
                     prop.dims_upper_left + prop.dims_lower_right +
@@ -3446,15 +3455,6 @@ class BSP:
                 spr_scale = prop.sprite_scale
                 shape_ang = 0
                 shape_size = 1
-            elif isinstance(prop, DetailPropShape):
-                mdl_ind = add_sprite(
-                    prop.dims_upper_left + prop.dims_lower_right +
-                    prop.texcoord_upper_left + prop.texcoord_lower_right
-                )
-                detail_type = 3 if prop.is_cross else 2
-                spr_scale = prop.sprite_scale
-                shape_ang = prop.shape_angle
-                shape_size = prop.shape_size
             else:
                 raise TypeError(f'Unknown detail prop type {prop}!')
 
